@@ -1,7 +1,7 @@
 """C15 - lifecycle: initialise, write config, poll, serve; shutdown in reverse order"""
 from sa.core import rule, prop_info
 from sa.lib import *  # noqa: F401,F403
-from sa.lib import attr_stores, func_calls, origins, compare_ops, loop_anchor
+from sa.lib import attr_stores, func_calls, origins, compare_ops, loop_anchor, exit_calls
 from sa.model import AnchorMissing
 from sa.typestate import forward_paths, sdict, sfreeze
 from sa import roles
@@ -82,7 +82,7 @@ def node_start_order(ctx):
         return [i for c in calls_in(f.node) if pred(c) for i in cfg.node_of(c)]
     create = ids(lambda c: call_attr(c) == 'create_modules')
     start = ids(lambda c: call_attr(c) == 'startModule')
-    exit_ = ids(lambda c: call_name(c) == 'sys.exit')
+    exit_ = [i for c in exit_calls(m, f, cfg) for i in cfg.node_of(c)]
     wait = ids(lambda c: call_attr(c) == 'wait' and 'start_events' in src(c.func))
     if not (create and start and exit_ and wait):
         raise AnchorMissing('create_modules / startModule / sys.exit / start_events.wait not found in _processCfg')
@@ -263,10 +263,22 @@ def shutdown_order(ctx):
         raise AnchorMissing('nested function go in _getSortedModules not found')
     cfgg = CFG(go.node, m, go.module)
     apps = [c for c in calls_in(go.node) if call_attr(c) == 'append']
-    loops = [n for n in body_walk(go.node) if isinstance(n, ast.For) and 'attachedModules' in src(n.iter)]
-    if not apps or not loops:
-        raise AnchorMissing('post-order append / loop over attachedModules not found in go()')
-    lid = cfgg.ids(loops[0])
+    # the recursion over the attached modules: a for loop, or any statement holding the recursive call in a
+    # comprehension (`if not all(go(x.name) for x in attached)`), fed by attachedModules directly or through a local
+    rec = [c for c in calls_in(go.node) if isinstance(c.func, ast.Name) and c.func.id == go.node.name]
+    loops = []
+    for c in rec:
+        chain = []
+        for a in ancestors(c):
+            if a is go.node:
+                break
+            if isinstance(a, ast.stmt):
+                chain.append(a)
+        if chain:
+            loops.append(chain[-1])   # outermost statement of go() holding the recursive call
+    if not apps or not loops or not any(isinstance(n, ast.Attribute) and n.attr == 'attachedModules' for n in body_walk(go.node)):
+        raise AnchorMissing('post-order append / recursion over attachedModules not found in go()')
+    lid = cfgg.ids(loops[0]) or (cfgg.ids(loops[0].test) if hasattr(loops[0], 'test') else cfgg.node_of(rec[0]))
     post = all(cfgg.dominates(lid, i) for c in apps for i in cfgg.node_of(c)) and \
         not any(cfgg.reachable(i, l) for c in apps for i in cfgg.node_of(c) for l in lid)
     pre_insert = any(call_attr(c) == 'insert' for c in calls_in(go.node))
